@@ -72,6 +72,7 @@ class Env:
         self.floats = floats  # concrete mode only: hand out float(inputs) instead of Fractions
         self.vars = {}  # name -> SV / Fraction, in creation order
         self.nice = []
+        self.extra_inputs = {}  # values found by a side engine (FP mode) that a replay needs
         self.n_obl = 0
         self.n_ok = 0
         self.n_unknown = 0
@@ -207,7 +208,12 @@ class Env:
         for k, v in self.vars.items():
             if isinstance(v, SV):
                 out[k] = fr_str(core.model_value(model, v))
+        out.update(self.extra_inputs)
         return out
+
+    def inject(self, name, value):
+        """record a concrete input found outside the real-arithmetic engine (exact value of a double)"""
+        self.extra_inputs[name] = fr_str(Fraction(value))
 
     def eq(self, name, a, b):
         """obligation: a == b (numbers or equally shaped nested sequences), for all inputs on this path"""
